@@ -371,4 +371,292 @@ theorem display_wrap (l : Lut) : Dyn.display l = [76, 117, 116] ++ decDigits l.n
     Dyn.binary l = [76, 117, 116] ++ decDigits l.n ++ [40] ++ Dyn.toBinString l ++ [41] :=
   ⟨rfl, rfl, rfl⟩
 
+/-! ## from_hex_string: what is accepted, and what the accepted string denotes -/
+
+/-- the number written by a string of hex digits (either case) -/
+def hexDenote (s : List Nat) : Nat := ofDigits 4 (s.map (fun c => (hexVal c).getD 0))
+
+theorem hexDenote_cons (c : Nat) (cs : List Nat) :
+    hexDenote (c :: cs) = (hexVal c).getD 0 * 16 ^ cs.length + hexDenote cs := by
+  unfold hexDenote ofDigits
+  simp only [List.map_cons, List.foldl_cons, Nat.zero_mul, Nat.zero_add]
+  rw [foldl_digits]
+  simp [ofDigits]
+
+theorem hexDenote_append (a b : List Nat) : hexDenote (a ++ b) = hexDenote a * 16 ^ b.length + hexDenote b := by
+  induction a with
+  | nil => simp [hexDenote, ofDigits]
+  | cons c cs ih =>
+    rw [List.cons_append, hexDenote_cons, hexDenote_cons, ih, List.length_append, Nat.pow_add, Nat.add_mul,
+      Nat.mul_assoc]
+    omega
+
+theorem hexVal_lt (c : Nat) (d : Nat) (h : hexVal c = some d) : d < 16 := by
+  unfold hexVal at h
+  split at h
+  · cases h; omega
+  · split at h
+    · cases h; omega
+    · split at h
+      · cases h; omega
+      · cases h
+
+theorem hexDenote_lt (s : List Nat) (h : ∀ c ∈ s, isHexDigit c = true) : hexDenote s < 16 ^ s.length := by
+  induction s with
+  | nil => simp [hexDenote, ofDigits]
+  | cons c cs ih =>
+    rw [hexDenote_cons, List.length_cons, Nat.pow_succ]
+    have hc := h c (by simp)
+    unfold isHexDigit at hc
+    obtain ⟨d, hd⟩ := Option.isSome_iff_exists.mp hc
+    rw [hd, Option.getD_some]
+    have := hexVal_lt c d hd
+    have ih' := ih (fun x hx => h x (by simp [hx]))
+    calc d * 16 ^ cs.length + hexDenote cs < d * 16 ^ cs.length + 16 ^ cs.length := by omega
+      _ = (d + 1) * 16 ^ cs.length := by rw [Nat.add_mul, Nat.one_mul]
+      _ ≤ 16 * 16 ^ cs.length := Nat.mul_le_mul_right _ (by omega)
+      _ = 16 ^ cs.length * 16 := Nat.mul_comm _ _
+
+/-- `parseHexDigits` on hex digits: the value, unless it overflows 64 bits -/
+theorem parse_hex (s : List Nat) (acc : Nat) (hacc : acc < 2 ^ 64) (h : ∀ c ∈ s, isHexDigit c = true) :
+    parseHexDigits s acc =
+      if acc * 16 ^ s.length + hexDenote s < 2 ^ 64 then some (acc * 16 ^ s.length + hexDenote s) else none := by
+  induction s generalizing acc with
+  | nil =>
+    simp only [parseHexDigits, List.length_nil, Nat.pow_zero, Nat.mul_one, hexDenote, ofDigits, List.map_nil,
+      List.foldl_nil, Nat.add_zero, hacc, if_true]
+  | cons c cs ih =>
+    have hc := h c (by simp)
+    unfold isHexDigit at hc
+    obtain ⟨d, hd⟩ := Option.isSome_iff_exists.mp hc
+    have etot : acc * 16 ^ (c :: cs).length + hexDenote (c :: cs) = (acc * 16 + d) * 16 ^ cs.length + hexDenote cs := by
+      rw [hexDenote_cons, hd, Option.getD_some, List.length_cons, Nat.pow_succ, Nat.add_mul,
+        Nat.mul_comm (16 ^ cs.length) 16, Nat.mul_assoc]
+      omega
+    rw [etot]
+    simp only [parseHexDigits, hd]
+    have hpos : 1 ≤ 16 ^ cs.length := Nat.pos_of_ne_zero (by simp)
+    by_cases ha : acc * 16 + d < 2 ^ 64
+    · simp only [ha, if_true]
+      exact ih (acc * 16 + d) ha (fun x hx => h x (by simp [hx]))
+    · simp only [ha, if_false]
+      have : (acc * 16 + d) * 1 ≤ (acc * 16 + d) * 16 ^ cs.length := Nat.mul_le_mul_left _ hpos
+      have : ¬ (acc * 16 + d) * 16 ^ cs.length + hexDenote cs < 2 ^ 64 := by omega
+      simp [this]
+
+theorem not_plus_of_hex (c : Nat) (h : isHexDigit c = true) : c ≠ 43 := by
+  intro e; subst e; revert h; decide
+
+/-- `u64::from_str_radix(s, 16)` on 1..16 hex digits is their value -/
+theorem fromStrRadix16_hex (s : List Nat) (h1 : 1 ≤ s.length) (h16 : s.length ≤ 16)
+    (h : ∀ c ∈ s, isHexDigit c = true) : fromStrRadix16 s = some (hexDenote s) := by
+  have hlt : hexDenote s < 2 ^ 64 := by
+    have := hexDenote_lt s h
+    have : 16 ^ s.length ≤ 16 ^ 16 := Nat.pow_le_pow_right (by omega) h16
+    have e : (16 : Nat) ^ 16 = 2 ^ 64 := by decide
+    omega
+  match s, h1, h with
+  | c :: cs, _, h =>
+    have hne := not_plus_of_hex c (h c (by simp))
+    have : fromStrRadix16 (c :: cs) = parseHexDigits (c :: cs) 0 := by
+      unfold fromStrRadix16
+      split
+      · rename_i heq; cases heq
+      · rename_i heq; cases heq; exact absurd rfl hne
+      · rename_i heq; cases heq; exact absurd rfl hne
+      · rfl
+    rw [this, parse_hex (c :: cs) 0 (by decide) h]
+    simp only [Nat.zero_mul, Nat.zero_add, hlt, if_true]
+
+theorem toNatLE_append_single (ws : List W) (w : W) :
+    toNatLE (ws ++ [w]) = toNatLE ws + 2 ^ (64 * ws.length) * w.toNat := by
+  induction ws with
+  | nil => simp [toNatLE]
+  | cons a as ih =>
+    simp only [List.cons_append, toNatLE, ih, List.length_cons]
+    rw [Nat.mul_add, show 64 * (as.length + 1) = 64 + 64 * as.length by omega, Nat.pow_add, Nat.mul_assoc]
+    omega
+
+/-- the loop: whatever it accepts denotes the number written by the string -/
+theorem fill_value (width : Nat) (mask : W) (hw1 : 1 ≤ width) (hw16 : width ≤ 16) (k : Nat) (s : List Nat) (ws : List W)
+    (hk : width = 16 ∨ k ≤ 1) (hlen : s.length = width * k) (hhex : ∀ c ∈ s, isHexDigit c = true)
+    (h : fillHexWords width mask k s = some ws) : ws.length = k ∧ toNatLE ws = hexDenote s := by
+  induction k generalizing s ws with
+  | zero =>
+    simp only [fillHexWords] at h
+    cases h
+    have : s = [] := List.eq_nil_of_length_eq_zero (by simpa using hlen)
+    subst this
+    simp [toNatLE, hexDenote, ofDigits]
+  | succ k ih =>
+    simp only [fillHexWords] at h
+    have htake : (s.take width).length = width := by
+      rw [List.length_take, hlen, Nat.mul_succ]; omega
+    have hdrop : (s.drop width).length = width * k := by
+      rw [List.length_drop, hlen, Nat.mul_succ]; omega
+    have hhexT : ∀ c ∈ s.take width, isHexDigit c = true := fun c hc => hhex c (List.mem_of_mem_take hc)
+    have hhexD : ∀ c ∈ s.drop width, isHexDigit c = true := fun c hc => hhex c (List.mem_of_mem_drop hc)
+    rw [fromStrRadix16_hex (s.take width) (by omega) (by omega) hhexT] at h
+    simp only [] at h
+    split at h
+    · cases h
+    · cases hrec : fillHexWords width mask k (s.drop width) with
+      | none => rw [hrec] at h; cases h
+      | some ws' =>
+        rw [hrec] at h
+        cases h
+        obtain ⟨l1, v1⟩ := ih (s.drop width) ws' (by rcases hk with hk | hk; exact Or.inl hk; exact Or.inr (by omega)) hdrop hhexD hrec
+        refine ⟨by simp [l1], ?_⟩
+        rw [toNatLE_append_single, v1, l1]
+        have hsplit : s = s.take width ++ s.drop width := (List.take_append_drop width s).symm
+        conv => rhs; rw [hsplit, hexDenote_append, hdrop]
+        have hv : hexDenote (s.take width) < 2 ^ 64 := by
+          have := hexDenote_lt _ hhexT
+          rw [htake] at this
+          have : 16 ^ width ≤ 16 ^ 16 := Nat.pow_le_pow_right (by omega) hw16
+          have e : (16 : Nat) ^ 16 = 2 ^ 64 := by decide
+          omega
+        rw [BitVec.toNat_ofNat, Nat.mod_eq_of_lt hv]
+        have hp : (2 : Nat) ^ (64 * k) = 16 ^ (width * k) := by
+          rcases hk with hk | hk
+          · subst hk
+            rw [show 64 * k = 4 * (16 * k) by omega, Nat.pow_mul]
+          · have : k = 0 := by omega
+            subst this; simp
+        rw [hp, Nat.mul_comm]
+        omega
+
+/-- the loop accepts when every chunk fits the mask -/
+theorem fill_accepts (width : Nat) (mask : W) (hw1 : 1 ≤ width) (hw16 : width ≤ 16) (k : Nat) (s : List Nat)
+    (hlen : s.length = width * k) (hhex : ∀ c ∈ s, isHexDigit c = true)
+    (hfit : ∀ j, j < k → BitVec.ofNat 64 (hexDenote ((s.drop (j * width)).take width)) &&& ~~~ mask = 0#64) :
+    ∃ ws, fillHexWords width mask k s = some ws := by
+  induction k generalizing s with
+  | zero => exact ⟨[], rfl⟩
+  | succ k ih =>
+    simp only [fillHexWords]
+    have htake : (s.take width).length = width := by
+      rw [List.length_take, hlen, Nat.mul_succ]; omega
+    have hdrop : (s.drop width).length = width * k := by
+      rw [List.length_drop, hlen, Nat.mul_succ]; omega
+    have hhexT : ∀ c ∈ s.take width, isHexDigit c = true := fun c hc => hhex c (List.mem_of_mem_take hc)
+    have hhexD : ∀ c ∈ s.drop width, isHexDigit c = true := fun c hc => hhex c (List.mem_of_mem_drop hc)
+    rw [fromStrRadix16_hex (s.take width) (by omega) (by omega) hhexT]
+    simp only []
+    have h0 := hfit 0 (by omega)
+    simp only [Nat.zero_mul, List.drop_zero] at h0
+    rw [h0]
+    simp only [bne_self_eq_false, Bool.false_eq_true, if_false]
+    obtain ⟨ws', hws'⟩ := ih (s.drop width) hdrop hhexD (by
+      intro j hj
+      have := hfit (j + 1) (by omega)
+      rw [List.drop_drop]
+      rw [Nat.succ_mul] at this
+      rw [show width + j * width = j * width + width by omega]
+      exact this)
+    rw [hws']
+    exact ⟨_, rfl⟩
+
+/-- a value below 2^(2^n) fits the mask of n variables -/
+theorem fits_mask (n v : Nat) (hv : v < 2 ^ (2 ^ n)) : BitVec.ofNat 64 v &&& ~~~ numVarsMask n = 0#64 := by
+  apply BitVec.eq_of_getLsbD_eq
+  intro i hi
+  rw [BitVec.getLsbD_and, BitVec.getLsbD_not, numVarsMask_bit n i hi, BitVec.getLsbD_ofNat, BitVec.getLsbD_zero]
+  by_cases hlt : i < 2 ^ n
+  · simp [hlt]
+  · have : v.testBit i = false := by
+      apply Nat.testBit_lt_two_pow
+      exact Nat.lt_of_lt_of_le hv (Nat.pow_le_pow_right (by omega) (by omega))
+    simp [this]
+
+/-- **what `from_hex_string` accepts, and what the result denotes**: for every byte string,
+    `from_hex_string(n, s)` is `Ok(l)` exactly when s consists of `hex_str_size(n) * table_size(n)`
+    hex digits (either case) and `l` is the well-formed n-variable table whose numeric value is the
+    number written by s (in particular that number is below 2^(2^n)); otherwise it is `Err`. -/
+theorem fromHex_iff (n : Nat) (s : List Nat) (l : Lut) :
+    Dyn.fromHexString n s = some l ↔
+      s.length = hexStrSize n * tableSize n ∧ (∀ c ∈ s, isHexDigit c = true) ∧
+      l.n = n ∧ l.WF ∧ toNatLE l.t.toList = hexDenote s := by
+  obtain ⟨b1, b2⟩ := width_bounds n
+  have hk : hexStrSize n = 16 ∨ tableSize n ≤ 1 := by
+    by_cases h6 : n ≥ 6
+    · left; simp [hexStrSize, h6]
+    · right; rw [tableSize_le6 (by omega)]; exact Nat.le_refl 1
+  constructor
+  · intro h
+    obtain ⟨hn, hwf⟩ := fromHex_WF n s l h
+    unfold Dyn.fromHexString at h
+    rw [fillHex_eq] at h
+    by_cases c1 : s.any (fun c => c ≥ 128) = true
+    · simp [c1] at h
+    · by_cases c2 : s.length ≠ hexStrSize n * tableSize n
+      · simp [c1, c2] at h
+      · by_cases c3 : (!(s.all isHexDigit)) = true
+        · simp [c1, c2, c3] at h
+        · simp only [c1, c2, c3, Bool.false_eq_true, if_false] at h
+          have hlen : s.length = hexStrSize n * tableSize n := by simpa using c2
+          have hhex : ∀ c ∈ s, isHexDigit c = true := by
+            simpa using c3
+          cases hf : fillHexWords (hexStrSize n) (numVarsMask n) (tableSize n) s with
+          | none => rw [hf] at h; cases h
+          | some ws =>
+            rw [hf] at h
+            cases h
+            exact ⟨hlen, hhex, rfl, hwf, (fill_value _ _ b1 b2 _ s ws hk hlen hhex hf).2⟩
+  · rintro ⟨hlen, hhex, hn, hwf, hval⟩
+    -- the value fits, so every chunk fits the mask
+    have hlt : hexDenote s < 2 ^ (2 ^ n) := by
+      rw [← hval]
+      have := VoluteModel.Props.C08.toNat_lt_of_WF l hwf
+      rw [hn] at this
+      exact this
+    have hfit : ∀ j, j < tableSize n →
+        BitVec.ofNat 64 (hexDenote ((s.drop (j * hexStrSize n)).take (hexStrSize n))) &&& ~~~ numVarsMask n = 0#64 := by
+      intro j hj
+      by_cases h6 : n ≥ 6
+      · have : numVarsMask n = ~~~ 0#64 := by
+          unfold numVarsMask; rw [Nat.min_eq_right h6]; decide
+        rw [this]; simp
+      · have hj0 : j = 0 := by rw [tableSize_le6 (by omega)] at hj; omega
+        subst hj0
+        simp only [Nat.zero_mul, List.drop_zero]
+        have : s.take (hexStrSize n) = s := by
+          apply List.take_of_length_le
+          rw [hlen, tableSize_le6 (by omega)]; omega
+        rw [this]
+        exact fits_mask n _ hlt
+    obtain ⟨ws, hws⟩ := fill_accepts _ (numVarsMask n) b1 b2 (tableSize n) s hlen hhex hfit
+    obtain ⟨wl, wv⟩ := fill_value _ _ b1 b2 _ s ws hk hlen hhex hws
+    have hres : Dyn.fromHexString n s = some ⟨n, ws.toArray⟩ := by
+      unfold Dyn.fromHexString
+      rw [fillHex_eq]
+      have c1 : s.any (fun c => c ≥ 128) = false := by
+        rw [List.any_eq_false]
+        intro c hc
+        have := hhex c hc
+        unfold isHexDigit hexVal at this
+        simp only [decide_eq_true_eq, Nat.not_le]
+        split at this
+        · omega
+        · split at this
+          · omega
+          · split at this
+            · omega
+            · cases this
+      have c3 : s.all isHexDigit = true := by
+        rw [List.all_eq_true]; exact hhex
+      simp [c1, hlen, c3, hws]
+    rw [hres]
+    obtain ⟨_, hwf'⟩ := fromHex_WF n s _ hres
+    have hsz : ws.length = l.t.toList.length := by
+      rw [wl, Array.length_toList, hwf.1, hn]
+    have := toNatLE_inj ws l.t.toList hsz (by rw [wv, hval])
+    cases l with
+    | mk ln lt =>
+      simp only at hn this
+      subst hn
+      congr 2
+      apply Array.ext'
+      simpa using this
+
 end VoluteModel.Props.C09
